@@ -48,6 +48,14 @@ pub struct VerifProbe {
     pub has_keys: [bool; 3],
     /// Current key phase
     pub key_phase: bool,
+    /// Peer's `max_udp_payload_size` transport parameter (as currently known)
+    pub peer_max_udp_payload_size: u64,
+    /// Peer's `max_datagram_frame_size` transport parameter (as currently known)
+    pub peer_max_datagram_frame_size: Option<u64>,
+    /// Negotiated idle timeout
+    pub idle_timeout: Option<Duration>,
+    /// Whether 0-RTT keys are currently held
+    pub has_zero_rtt_keys: bool,
 }
 
 /// Stream accounting snapshot
@@ -151,6 +159,13 @@ impl Connection {
                 sp(SpaceId::Data).crypto.is_some(),
             ],
             key_phase: self.key_phase,
+            peer_max_udp_payload_size: self.peer_params.max_udp_payload_size.into_inner(),
+            peer_max_datagram_frame_size: self
+                .peer_params
+                .max_datagram_frame_size
+                .map(|x| x.into_inner()),
+            idle_timeout: self.idle_timeout,
+            has_zero_rtt_keys: self.zero_rtt_crypto.is_some(),
         }
     }
 }
